@@ -532,7 +532,8 @@ func evalSubqueryForValue(ctx context.Context, scope *ReferenceScope, expr parse
 		return nil, err
 	}
 
-	if 1 < view.FieldLen() {
+	if view.FieldLen() != 1 {
+		// more than one field, or none (a wildcard that matches no field)
 		return nil, NewSubqueryTooManyFieldsError(expr)
 	}
 
@@ -1111,7 +1112,8 @@ func evalSubqueryForArray(ctx context.Context, scope *ReferenceScope, expr parse
 		return nil, err
 	}
 
-	if 1 < view.FieldLen() {
+	if view.FieldLen() != 1 {
+		// more than one field, or none (a wildcard that matches no field)
 		return nil, NewSubqueryTooManyFieldsError(expr)
 	}
 
